@@ -39,6 +39,7 @@ type FuncSpec struct {
 	Implements []string
 	Uses       []string          // lemmas made available to this function's obligations
 	Hints      map[int][]*Clause // proof hints asserted (proved, then assumed) after the k-th call
+	Trusts     map[string]string // obligation suffix -> reason: runtime checks taken on trust (listed in the evidence)
 	Props      []string
 	Lets       []*Clause
 	Requires   []*Clause
@@ -110,7 +111,7 @@ var topKeywords = map[string]bool{"global": true, "declare": true, "type": true,
 var subKeywords = map[string]bool{"requires": true, "ensures": true, "xensures": true, "invariant": true, "decreases": true,
 	"modifies": true, "let": true, "loop": true, "implements": true, "props": true, "pure": true, "nopanic": true, "inline": true,
 	"view": true, "modelfield": true, "guarded_by": true, "trusted": true, "safe": true, "opaque": true, "noverify": true, "immutable": true,
-	"assumeat": true, "defines": true, "hint": true, "assumes": true, "uses": true, "hypothesis": true, "mayblock": true, "terminates": true, "nilok": true, "noinv": true, "noxinv": true, "noframe": true, "constructor": true}
+	"trusts": true, "assumeat": true, "defines": true, "hint": true, "assumes": true, "uses": true, "hypothesis": true, "mayblock": true, "terminates": true, "nilok": true, "noinv": true, "noxinv": true, "noframe": true, "constructor": true}
 
 var clauseHead = regexp.MustCompile(`^([a-z_]+)(\[[A-Za-z0-9, ]+\])?\s*(.*)$`)
 
@@ -442,6 +443,16 @@ func (c *Contracts) loadFile(path string) error {
 					}
 					cl.Ord = len(fs.Hints[n]) + 1
 					fs.Hints[n] = append(fs.Hints[n], cl)
+				case "trusts":
+					// trusts safe.assert@TypeAssert1: reason
+					i := strings.Index(cl.Text, ":")
+					if i < 0 {
+						return fmt.Errorf("%s:%d: trusts OBLIGATION: reason", path, s.line)
+					}
+					if fs.Trusts == nil {
+						fs.Trusts = map[string]string{}
+					}
+					fs.Trusts[strings.TrimSpace(cl.Text[:i])] = strings.TrimSpace(cl.Text[i+1:])
 				case "uses":
 					fs.Uses = append(fs.Uses, strings.Fields(strings.ReplaceAll(cl.Text, ",", " "))...)
 				case "props":
